@@ -16,4 +16,11 @@ a = verify_unit(good, rr, VERIF)
 b = verify_unit(bad, rr, VERIF)
 assert a.status() == 'proved', (a.status(), a.error)
 assert b.status() == 'refuted', (b.status(), b.error)
+# a contract stands in only for calls inside the domain it declares (a CharacterString source is not a str)
+from bacpypes.primitivedata import CharacterString
+from pyvc.contracts import Str
+dom = Contract("bacpypes.primitivedata:CharacterString.__init__", {"self": Obj("bacpypes.primitivedata:CharacterString"),
+               "arg": Obj("bacpypes.primitivedata:CharacterString", value=Str())}, post={"self.value": "arg.value"}, namespace=globals())
+assert dom._args_in_domain({"self": CharacterString(), "arg": CharacterString("a")})
+assert not dom._args_in_domain({"self": CharacterString(), "arg": "a"})
 print("pyvc smoke test ok: %d clauses proved, canary refuted" % len(a.clauses))
